@@ -299,7 +299,8 @@ TRUSTED_BASE = [
     "Coq 8.16.1 kernel, coqc; vm_compute used for finite sweeps; native_compute not used",
     "axioms: none (every property theorem is 'Closed under the global context'; enforced by the audit)",
     "Spec/ (own transcription of the BLAKE3 paper) and the theorem statements as readings of the property text",
-    "tools/gen_coq.py translator (constants, tables, anchored integer formulas, test vectors, the event list of the C "
+    "tools/gen_coq.py translator and its branch tools/gen_coq_wide.py (constants, tables, anchored integer formulas, statement-level "
+    "translations of the Rust / C / reference sources into Gallina, test vectors, the event list of the C "
     "get_cpu_features, frames / stack operands / saved registers of the GNU-syntax assembly functions, the list of function "
     "items of the modelled Rust files) and Base/MachInt.v semantics",
     "extraction with ExtrOcamlBasic only (Extract Inductive bool/option/unit/list/prod/sumbool/sumor; "
